@@ -175,6 +175,9 @@ func (E *Engine) VerifyFunc(name string) (rep FuncReport) {
 			}
 		}
 		for _, en := range c.Ensures {
+			if en.Assumed {
+				continue
+			}
 			g := pev.EvalBool(en.Expr, en.Src)
 			if g.S == "true" {
 				// still an instance of the obligation (trivially discharged): count it once per function
@@ -219,6 +222,9 @@ func (E *Engine) applyContract(m *Machine, f *Frame, x *ssa.Call, fn *ssa.Functi
 		props := rq.Props
 		if len(props) == 0 && m.Top != nil && m.Top.C != nil {
 			props = allProps(m.Top.C)
+		} else if rq.CallSiteOnly && m.Top != nil && m.Top.C != nil && len(m.Top.C.Covers) > 0 {
+			// the caller's contract claims this callee demand under further properties (`covers`)
+			props = append(append([]string{}, props...), m.Top.C.Covers...)
 		}
 		o := &Obligation{Name: fmt.Sprintf("%s:pre@%s:%s", m.Top.Name, site, rq.Label), Func: m.Top.Name, Kind: "pre", Props: props, Reading: rq.Reading, Goal: g, Src: rq.Src}
 		E.addObl(m, o)
@@ -294,8 +300,11 @@ func (E *Engine) applyContract(m *Machine, f *Frame, x *ssa.Call, fn *ssa.Functi
 		if E.knownFailing(name + ":post:" + en.Label) {
 			continue // a recorded finding: callers must not rely on it
 		}
-		if !c.Trusted && len(en.Props) == 0 {
+		if !c.Trusted && len(en.Props) == 0 && !en.Assumed {
 			continue // not claimed under any property, hence never checked: callers must not rely on it
+		}
+		if en.Assumed && !c.Trusted {
+			E.Assume("T-"+name+":"+en.Label, "assumed clause of a verified contract (not checked against the body): "+name+" ensures "+en.Label)
 		}
 		m.AssumeT(pev.EvalBool(en.Expr, en.Src))
 	}
